@@ -852,6 +852,12 @@ func c08verifyPacket(l, pk string, src, dst, data []byte) (v c08vr, all string, 
 	}
 	cl := ly.(c08csumLayer)
 	region := c08region(l, cl)
+	if _, ok := ly.(c08setNet); ok {
+		// before the network layer is attached the L4 checksum cannot be verified: an error, no panic, no verdict
+		if e0, mm := p.VerifyChecksums(); e0 == nil {
+			all += fmt.Sprintf(";unattached-no-error(%d mismatches)", len(mm))
+		}
+	}
 	if sn, ok := ly.(c08setNet); ok {
 		if p.NetworkLayer() == nil {
 			return c08vr{cls: "err"}, all, true
@@ -1207,7 +1213,7 @@ func (c08) runVerify(l, pk string, src, dst, data []byte, what string, res *Resu
 				res.Oracle = append(res.Oracle, "C08:no-panic\tpacket path "+what+" panicked")
 			} else if pv.cls != "ok" || pv.res != v.res {
 				res.Oracle = append(res.Oracle, fmt.Sprintf("C08:packet-path\t%s %s/%s len=%d: direct %s, via NewPacket %s", what, l, pk, len(data), v.obs(), pv.obs()))
-			} else if strings.Contains(all, "disagrees") || strings.Contains(all, "differs") {
+			} else if strings.Contains(all, "disagrees") || strings.Contains(all, "differs") || strings.Contains(all, "unattached") {
 				res.Oracle = append(res.Oracle, fmt.Sprintf("C08:packet-verifychecksums\t%s %s/%s len=%d: %s", what, l, pk, len(data), all))
 			}
 		}
